@@ -50,7 +50,7 @@ pub fn exec(cx: &mut Ctx, c: &Case) {
     let mut buf = vec![0xA5u8; PRE];
     buf.extend_from_slice(&data);
     buf.extend(std::iter::repeat(0x5A).take(POST));
-    let sigp = format!("C01|{}|{}", match layout { Layout::Ietf => "ctr32", Layout::Djb => "ctr64", Layout::X => "xchacha" }, api::profile());
+    let sigp = format!("{}|{}|{}", cx.prop, match layout { Layout::Ietf => "ctr32", Layout::Djb => "ctr64", Layout::X => "xchacha" }, api::profile());
     api::force_backend(c.fb);
     let res = guarded(|| {
         let mut ci = api::new_cipher(c.ty, &key, &nonce);
